@@ -605,6 +605,11 @@ func modelTie(k kase, res []string, rep *hx.Report) (ops []string, chk []func(st
 		if off+i >= len(res) {
 			break
 		}
+		if i > 0 && !keepsMessage(k.cmds[i-1]) {
+			// an earlier command may have changed who is logged in, what is selected or which messages there are ($N is then
+			// no longer the stored message): the value tie ends here, the liveness check goes on
+			break
+		}
 		parts := strings.SplitN(res[off+i], ":", 2)
 		if len(parts) != 2 || parts[0] != "ok" {
 			continue
@@ -645,6 +650,22 @@ func modelTie(k kase, res []string, rep *hx.Report) (ops []string, chk []func(st
 		}
 	}
 	return
+}
+
+// keepsMessage: commands after which message $N of the selected INBOX is still the stored message, whatever they were
+// answered: reads, and COPY (which appends behind it)
+func keepsMessage(cmd string) bool {
+	f := strings.Fields(strings.ToUpper(cmd))
+	if len(f) == 0 {
+		return false
+	}
+	switch f[0] {
+	case "FETCH", "SEARCH", "NOOP", "CHECK", "LIST", "LSUB", "STATUS", "CAPABILITY", "NAMESPACE", "COPY":
+		return true
+	case "UID":
+		return len(f) > 1 && (f[1] == "FETCH" || f[1] == "SEARCH" || f[1] == "COPY")
+	}
+	return false
 }
 
 func trunc(s string, n int) string {
